@@ -687,6 +687,13 @@ def skeletons():
     add("alias-agg", agg(g=[col("b")], o=[xs]))
     add("alias-agg", agg(g=[col("b")], o=[fn("SUM", col("a"))]))
     add("alias-agg", agg(g=[num(2)], o=[num(1), num(2)]))
+    # an aggregate in ORDER BY that is also projected, over a column whose name an alias shadows
+    shagg = lambda **kw: sel([pe(col("a"), C("b")), pe(fn("MAX", col("b")), "xm")], [t], **kw)
+    add("alias-shadow-agg", shagg(g=[col("a")], o=[fn("MAX", col("b"))]))
+    add("alias-shadow-agg", shagg(g=[col("a")], o=[op("+", fn("MAX", col("b")), num(1))]))
+    add("alias-shadow-agg", shagg(g=[num(1)], o=[fn("MAX", col("b")), num(1)]))
+    add("alias-shadow-agg", shagg(g=[col("a")], h=op(">", fn("MAX", col("b")), num(0)), o=[num(2)]))
+    add("alias-shadow-agg", sel([pe(fn("MAX", col("b")), "xm"), pe(col("a"), C("b"))], [t], g=[col("a", T("t"))], o=[fn("MAX", col("b", T("t")))]))
     # plain (non-alias) columns in HAVING
     add("having-column", agg(g=[col("b")], h=op(">", fn("MAX", col("c")), num(1)), o=[fn("MAX", col("c")), col("b")]))
     add("having-column", sel([pe(col("b"))], [t], g=[col("b")], h=op(">", fn("MAX", col("a")), num(0))))
@@ -826,6 +833,13 @@ def skeletons():
     add("union-order", union(L, R, o=[col("b"), col("a")]))
     add("union-order", union(sel([pe(col("a"), "xa")], [t]), sel([pe(col("d"))], [v]), o=[xa]))
     add("union", union(union(L, R), sel([pe(col("b")), pe(col("c"))], [u])))
+    U3 = lambda: union(union(L, R), sel([pe(col("b")), pe(col("c"))], [u]))
+    U4 = lambda: union(union(union(L, R, True), sel([pe(col("b")), pe(col("c"))], [u]), True), sel([pe(col("c")), pe(col("a"))], [t]), True)
+    for U in (U3, U4):
+        add("union3-collist", sel([STAR], [cte(wa)], with_=[(wa, U(), ["xa", "xb"])]))
+        add("union3-collist", sel([star(wa)], [cte(wa)], with_=[(wa, U(), ["xa", "xb"])]))
+        add("union3-collist", sel([STAR], [sub(U(), "sa", ["xa", "xb"])]))
+        add("union3-collist", sel([STAR], [sub(U(), "sa")]))
     add("union-derived", sel([STAR], [sub(union(L, R), "sa")]))
     add("union-derived", sel([pe(col("a", AT("sa")))], [sub(union(L, R), "sa")], o=[col("b")]))
     add("union-derived", sel([STAR], [sub(union(sel([STAR], [t]), sel([STAR], [u])), "sa")]))
